@@ -1,1 +1,489 @@
-pub fn yield_now() {}
+//! The one hook installed into rxRust's `verif_hooks`, and the engines behind
+//! it: single-thread self-deadlock detection, the baton scheduler (one
+//! managed OS thread runs at a time; every shared-cell lock acquisition and
+//! every explicit `yield_now()` is a scheduling point), the gate used for the
+//! `complete_status` check/register window, and free-run delay injection.
+use crate::value::Rng;
+use std::cell::Cell;
+use std::sync::atomic::{AtomicU64, AtomicU8, Ordering};
+use std::sync::{Arc, Condvar, Mutex};
+use std::time::{Duration, Instant};
+
+pub const OFF: u8 = 0;
+pub const SINGLE: u8 = 1;
+pub const BATON: u8 = 2;
+pub const FREE: u8 = 3;
+
+static MODE: AtomicU8 = AtomicU8::new(OFF);
+pub static LOCK_POINTS: AtomicU64 = AtomicU64::new(0);
+
+thread_local! {
+  static MANAGED: Cell<Option<usize>> = const { Cell::new(None) };
+  static RUN_GEN: Cell<u64> = const { Cell::new(0) };
+  static FREE_RNG: Cell<u64> = const { Cell::new(0x9E3779B97F4A7C15) };
+}
+
+pub fn set_mode(m: u8) {
+  MODE.store(m, Ordering::SeqCst)
+}
+pub fn mode() -> u8 {
+  MODE.load(Ordering::SeqCst)
+}
+
+pub fn install() {
+  rxrust::verif_hooks::set_hook(Some(Arc::new(hook)));
+  set_mode(SINGLE);
+}
+
+pub const SELF_DEADLOCK: &str = "SELF-DEADLOCK";
+
+fn hook(site: &'static str, addr: usize, avail: &mut dyn FnMut() -> bool) {
+  if std::thread::panicking() {
+    return;
+  }
+  match site {
+    "lock" => {
+      LOCK_POINTS.fetch_add(1, Ordering::Relaxed);
+      match mode() {
+        SINGLE => {
+          // only one thread exists: a held cell can never be released
+          if !avail() {
+            panic!("{}: a thread-safe shared cell is locked again by the thread that already holds it (cell {:#x})", SELF_DEADLOCK, addr & 0xffff);
+          }
+        }
+        BATON => baton_point(addr, avail),
+        FREE => free_jitter(),
+        _ => {}
+      }
+    }
+    "status_window" => gate_point(),
+    _ => {}
+  }
+}
+
+/// explicit scheduling point (inside probe callbacks and task bodies)
+pub fn yield_now() {
+  match mode() {
+    BATON => baton_point(0, &mut || true),
+    FREE => free_jitter(),
+    _ => {}
+  }
+}
+
+// ---------------------------------------------------------------------------
+// free-run jitter
+// ---------------------------------------------------------------------------
+
+pub fn free_seed(seed: u64) {
+  FREE_RNG.with(|r| r.set(seed | 1))
+}
+
+fn free_jitter() {
+  let x = FREE_RNG.with(|r| {
+    let mut x = r.get();
+    x ^= x >> 12;
+    x ^= x << 25;
+    x ^= x >> 27;
+    r.set(x);
+    x.wrapping_mul(0x2545F4914F6CDD1D)
+  });
+  match x % 16 {
+    0 | 1 => std::thread::yield_now(),
+    2 => {
+      for _ in 0..(x >> 8) % 200 {
+        std::hint::spin_loop()
+      }
+    }
+    3 => std::thread::sleep(Duration::from_micros((x >> 8) % 50)),
+    _ => {}
+  }
+}
+
+// ---------------------------------------------------------------------------
+// baton scheduler
+// ---------------------------------------------------------------------------
+
+#[derive(Clone, Copy, Debug, PartialEq)]
+enum TS {
+  Ready,
+  Blocked { addr: usize, epoch: u64 },
+  Done,
+}
+
+#[derive(Clone, Copy, Debug, PartialEq, Eq, Hash)]
+pub enum Strategy {
+  Uniform,
+  /// PCT-style: random priorities, d priority change points
+  Pct(u32),
+}
+
+struct Sched {
+  gen: u64,
+  th: Vec<TS>,
+  current: usize,
+  epoch: u64,
+  trace: Vec<u8>,
+  rng: Rng,
+  points: u64,
+  switches: u64,
+  deadlock: Option<Vec<(usize, usize)>>,
+  abandoned: bool,
+  livelock: bool,
+  strategy: Strategy,
+  prio: Vec<i64>,
+  change_at: Vec<u64>,
+  max_points: u64,
+}
+
+static SCHED: Mutex<Option<Sched>> = Mutex::new(None);
+static GEN: AtomicU64 = AtomicU64::new(1);
+static CV: Condvar = Condvar::new();
+
+fn sched_lock() -> std::sync::MutexGuard<'static, Option<Sched>> {
+  SCHED.lock().unwrap_or_else(|e| e.into_inner())
+}
+
+impl Sched {
+  fn candidates(&self, exclude: Option<usize>) -> Vec<usize> {
+    (0..self.th.len())
+      .filter(|i| Some(*i) != exclude)
+      .filter(|i| match self.th[*i] {
+        TS::Ready => true,
+        TS::Blocked { epoch, .. } => epoch < self.epoch,
+        TS::Done => false,
+      })
+      .collect()
+  }
+  fn pick(&mut self, cands: &[usize]) -> usize {
+    let c = match self.strategy {
+      Strategy::Uniform => cands[self.rng.below(cands.len())],
+      Strategy::Pct(_) => {
+        if self.change_at.contains(&self.points) {
+          // demote the running thread
+          let low = self.prio.iter().cloned().min().unwrap_or(0) - 1;
+          let cur = self.current;
+          self.prio[cur] = low;
+        }
+        *cands.iter().max_by_key(|i| self.prio[**i]).unwrap()
+      }
+    };
+    self.trace.push(c as u8);
+    c
+  }
+}
+
+fn park_forever() -> ! {
+  loop {
+    std::thread::park();
+  }
+}
+
+fn baton_point(addr: usize, avail: &mut dyn FnMut() -> bool) {
+  let Some(me) = MANAGED.with(|m| m.get()) else { return };
+  let mut g = sched_lock();
+  loop {
+    let Some(s) = g.as_mut() else { return };
+    if s.abandoned || s.gen != RUN_GEN.with(|g| g.get()) {
+      drop(g);
+      park_forever();
+    }
+    s.points += 1;
+    if s.points > s.max_points {
+      s.livelock = true;
+      s.abandoned = true;
+      CV.notify_all();
+      drop(g);
+      park_forever();
+    }
+    // I hold the baton. Who continues?
+    s.th[me] = TS::Ready;
+    let cands = s.candidates(None);
+    let next = s.pick(&cands);
+    if next != me {
+      s.switches += 1;
+      s.current = next;
+      CV.notify_all();
+      loop {
+        g = CV.wait(g).unwrap_or_else(|e| e.into_inner());
+        match g.as_ref() {
+          None => return,
+          Some(s) if s.abandoned || s.gen != RUN_GEN.with(|g| g.get()) => {
+            drop(g);
+            park_forever();
+          }
+          Some(s) if s.current == me => break,
+          _ => {}
+        }
+      }
+    }
+    let s = g.as_mut().unwrap();
+    if avail() {
+      s.epoch += 1;
+      s.th[me] = TS::Ready;
+      return;
+    }
+    // the cell is held by a paused thread (or by me): give the baton away
+    s.th[me] = TS::Blocked { addr, epoch: s.epoch };
+    let others = s.candidates(Some(me));
+    if others.is_empty() {
+      let wit: Vec<(usize, usize)> = s
+        .th
+        .iter()
+        .enumerate()
+        .filter_map(|(i, t)| if let TS::Blocked { addr, .. } = t { Some((i, *addr)) } else { None })
+        .collect();
+      s.deadlock = Some(wit);
+      s.abandoned = true;
+      CV.notify_all();
+      drop(g);
+      park_forever();
+    }
+    let next = s.pick(&others);
+    s.switches += 1;
+    s.current = next;
+    CV.notify_all();
+    loop {
+      g = CV.wait(g).unwrap_or_else(|e| e.into_inner());
+      match g.as_ref() {
+        None => return,
+        Some(s) if s.abandoned || s.gen != RUN_GEN.with(|g| g.get()) => {
+          drop(g);
+          park_forever();
+        }
+        Some(s) if s.current == me => break,
+        _ => {}
+      }
+    }
+    // loop: count a point again and re-probe
+  }
+}
+
+#[derive(Debug, Default, Clone)]
+pub struct BatonOutcome {
+  pub trace: Vec<u8>,
+  pub points: u64,
+  pub switches: u64,
+  /// thread -> cell address it waits for
+  pub deadlock: Option<Vec<(usize, usize)>>,
+  pub livelock: bool,
+  pub panics: Vec<(usize, String)>,
+  pub finished: Vec<bool>,
+  pub timed_out: bool,
+}
+
+pub static LEAKED_THREADS: AtomicU64 = AtomicU64::new(0);
+
+/// Run the bodies as managed threads under the baton. Deterministic in
+/// (seed, strategy, bodies).
+pub fn baton_run(seed: u64, strategy: Strategy, bodies: Vec<Box<dyn FnOnce() + Send>>) -> BatonOutcome {
+  let n = bodies.len();
+  let mut rng = Rng::new(seed);
+  let prio: Vec<i64> = {
+    let mut p: Vec<i64> = (0..n as i64).collect();
+    for i in (1..n).rev() {
+      let j = rng.below(i + 1);
+      p.swap(i, j);
+    }
+    p
+  };
+  let change_at: Vec<u64> = match strategy {
+    Strategy::Pct(d) => (0..d).map(|_| 1 + rng.below(60) as u64).collect(),
+    _ => vec![],
+  };
+  let first = rng.below(n);
+  let gen = GEN.fetch_add(1, Ordering::SeqCst);
+  {
+    let mut g = sched_lock();
+    *g = Some(Sched {
+      gen,
+      th: vec![TS::Ready; n],
+      current: first,
+      epoch: 1,
+      trace: vec![first as u8],
+      rng,
+      points: 0,
+      switches: 0,
+      deadlock: None,
+      abandoned: false,
+      livelock: false,
+      strategy,
+      prio,
+      change_at,
+      max_points: 200_000,
+    });
+  }
+  let prev_mode = mode();
+  set_mode(BATON);
+  let results: Arc<Mutex<Vec<Option<Result<(), String>>>>> = Arc::new(Mutex::new(vec![None; n]));
+  let mut handles = vec![];
+  for (i, body) in bodies.into_iter().enumerate() {
+    let results = results.clone();
+    handles.push(std::thread::spawn(move || {
+      MANAGED.with(|m| m.set(Some(i)));
+      RUN_GEN.with(|g| g.set(gen));
+      crate::log::set_thread_id(i as u32 + 1);
+      // wait for the baton
+      {
+        let mut g = sched_lock();
+        loop {
+          match g.as_ref() {
+            None => return,
+            Some(s) if s.abandoned || s.gen != RUN_GEN.with(|g| g.get()) => {
+              drop(g);
+              park_forever();
+            }
+            Some(s) if s.current == i => break,
+            _ => {}
+          }
+          g = CV.wait(g).unwrap_or_else(|e| e.into_inner());
+        }
+      }
+      let r = crate::log::catch(body);
+      results.lock().unwrap_or_else(|e| e.into_inner())[i] = Some(r);
+      // finished: hand the baton on
+      let mut g = sched_lock();
+      if let Some(s) = g.as_mut() {
+        if s.abandoned || s.gen != gen {
+          return;
+        }
+        s.th[i] = TS::Done;
+        s.epoch += 1;
+        let cands = s.candidates(None);
+        if cands.is_empty() {
+          let blocked: Vec<(usize, usize)> = s
+            .th
+            .iter()
+            .enumerate()
+            .filter_map(|(i, t)| if let TS::Blocked { addr, .. } = t { Some((i, *addr)) } else { None })
+            .collect();
+          if !blocked.is_empty() {
+            s.deadlock = Some(blocked);
+            s.abandoned = true;
+          }
+        } else {
+          let next = s.pick(&cands);
+          s.current = next;
+        }
+        CV.notify_all();
+      }
+    }));
+  }
+  // main: wait until all done, or abandoned, or wall-clock watchdog
+  let t0 = Instant::now();
+  let mut out = BatonOutcome::default();
+  loop {
+    let g = sched_lock();
+    let s = g.as_ref().unwrap();
+    let all_done = s.th.iter().all(|t| *t == TS::Done);
+    if all_done || s.abandoned {
+      break;
+    }
+    if t0.elapsed() > Duration::from_secs(30) {
+      out.timed_out = true;
+      break;
+    }
+    let (g2, _) = CV.wait_timeout(g, Duration::from_millis(50)).unwrap_or_else(|e| e.into_inner());
+    drop(g2);
+  }
+  {
+    let mut g = sched_lock();
+    let s = g.as_mut().unwrap();
+    if out.timed_out {
+      s.abandoned = true;
+      CV.notify_all();
+    }
+    out.trace = s.trace.clone();
+    out.points = s.points;
+    out.switches = s.switches;
+    out.deadlock = s.deadlock.clone();
+    out.livelock = s.livelock;
+    out.finished = s.th.iter().map(|t| *t == TS::Done).collect();
+    let abandoned = s.abandoned;
+    if !abandoned {
+      *g = None;
+    }
+    drop(g);
+    if abandoned {
+      // threads of an abandoned run stay parked for ever; never join them
+      LEAKED_THREADS.fetch_add(n as u64, Ordering::Relaxed);
+      for h in handles {
+        std::mem::forget(h);
+      }
+      // leave the Sched in place (abandoned) so parked threads never resume;
+      // the next run replaces it, late wake-ups see `abandoned` or a foreign
+      // `current` and park again
+    } else {
+      for h in handles {
+        let _ = h.join();
+      }
+    }
+  }
+  set_mode(prev_mode);
+  let res = results.lock().unwrap_or_else(|e| e.into_inner());
+  for (i, r) in res.iter().enumerate() {
+    if let Some(Err(p)) = r {
+      out.panics.push((i, p.clone()));
+    }
+  }
+  out
+}
+
+// ---------------------------------------------------------------------------
+// gate for the complete_status check/register window
+// ---------------------------------------------------------------------------
+
+#[derive(Default)]
+struct Gate {
+  armed: bool,
+  waiter_inside: bool,
+  release: bool,
+  hits: u64,
+}
+static GATE: Mutex<Gate> = Mutex::new(Gate { armed: false, waiter_inside: false, release: false, hits: 0 });
+static GATE_CV: Condvar = Condvar::new();
+
+fn gate_point() {
+  let mut g = GATE.lock().unwrap_or_else(|e| e.into_inner());
+  g.hits += 1;
+  if !g.armed {
+    return;
+  }
+  g.armed = false; // one shot
+  g.waiter_inside = true;
+  GATE_CV.notify_all();
+  let t0 = Instant::now();
+  while !g.release && t0.elapsed() < Duration::from_secs(20) {
+    let (g2, _) = GATE_CV.wait_timeout(g, Duration::from_millis(20)).unwrap_or_else(|e| e.into_inner());
+    g = g2;
+  }
+  g.waiter_inside = false;
+}
+
+pub fn gate_arm() {
+  let mut g = GATE.lock().unwrap_or_else(|e| e.into_inner());
+  *g = Gate { armed: true, waiter_inside: false, release: false, hits: 0 };
+}
+pub fn gate_disarm() {
+  let mut g = GATE.lock().unwrap_or_else(|e| e.into_inner());
+  g.armed = false;
+  g.release = true;
+  GATE_CV.notify_all();
+}
+/// wait until the waiter is parked inside the window
+pub fn gate_wait_inside(max: Duration) -> bool {
+  let mut g = GATE.lock().unwrap_or_else(|e| e.into_inner());
+  let t0 = Instant::now();
+  while !g.waiter_inside && t0.elapsed() < max {
+    let (g2, _) = GATE_CV.wait_timeout(g, Duration::from_millis(5)).unwrap_or_else(|e| e.into_inner());
+    g = g2;
+  }
+  g.waiter_inside
+}
+pub fn gate_release() {
+  let mut g = GATE.lock().unwrap_or_else(|e| e.into_inner());
+  g.release = true;
+  GATE_CV.notify_all();
+}
+pub fn gate_hits() -> u64 {
+  GATE.lock().unwrap_or_else(|e| e.into_inner()).hits
+}
